@@ -100,6 +100,15 @@ def judge_ok(pu, text, unit, ref, exp):
                     bad.append(("units.round_trip", v, back2))
         except Exception as ex:  # pylint: disable=broad-except
             bad.append(("units.round_trip", v, type(ex).__name__))
+    if unit == "%":
+        # a percentage converted without a reference and back is the original value too ("converting back returns the original value" names every unit)
+        try:
+            u0 = pu.unitsToUserUnits(text)
+            back = pu.userUnitToUnits(u0, "%")
+            if not (close(back, v) or back == v):
+                bad.append(("units.round_trip_percent", v, back))
+        except Exception as ex:  # pylint: disable=broad-except
+            bad.append(("units.round_trip_percent", v, type(ex).__name__))
     # document-attribute readers
     doc = Doc({"width": text})
     try:
